@@ -114,8 +114,9 @@ def _snapshot_table(t):
     out = [tuple(t.colnames), type(t).__name__]
     for cn in t.colnames:
         col = t[cn]
+        # repr of the values: NaN entries (errors of fixed parameters) compare equal to themselves
         out.append((cn, str(getattr(col, 'unit', None)), str(np.asarray(getattr(col, 'value', col)).dtype),
-                    np.asarray(getattr(col, 'value', col)).tolist()))
+                    repr(np.asarray(getattr(col, 'value', col)).tolist())))
     return out
 
 
@@ -413,6 +414,8 @@ def k_phot(c):
         data += _prf(f, x, y, fwhm, xx, yy)
     data += c['bkg']
     model = CircularGaussianPRF(fwhm=fwhm)
+    if c.get('fix_flux'):
+        model.flux.fixed = True          # positions-only fit (forced flux)
     init = QTable() if unit else Table()
     init['x'] = [s[0] + 0.2 for s in src]
     init['y'] = [s[1] - 0.15 for s in src]
@@ -689,6 +692,12 @@ def run(ctx):
                'bkg': 1.5, 'bkgmode': bkgmode_, 'unit': unit, 'cls': cls, 'fit_shape': 5, 'minsep': None,
                'psf_shapes': [5, None], 'nddata': False, 'check_nddata': True, 'maxiters': 1, 'use_init': True,
                'sub_shape': None}, 'photometry-model-and-residual-images')
+    # flux held fixed x unit-ful data (every tier): the images still carry the data unit
+    for unit in ('Jy', None):
+        em.do({'kind': 'phot', 'shape': [21, 23], 'fwhm': 2.4, 'sources': [list(s) for s in scenes[1]],
+               'bkg': 0.0, 'bkgmode': 'none', 'unit': unit, 'cls': 'psf', 'fit_shape': 5, 'minsep': None,
+               'psf_shapes': [5, None], 'nddata': False, 'check_nddata': bool(unit), 'maxiters': 1,
+               'use_init': True, 'sub_shape': None, 'fix_flux': True}, 'photometry-model-and-residual-images')
     pn = 0
     for sc, cls, bkgmode, unit in itertools.product(scenes, ('psf', 'iter'), ('none', 'column', 'estimator'), (None, 'Jy')):
         pn += 1
